@@ -454,7 +454,7 @@ impl Check for SessCc {
         match (self.id, tier) {
             ("C08", Tier::Quick) => 60_000,
             ("C08", Tier::Thorough) => 600_000,
-            (_, Tier::Quick) => 40_000,
+            (_, Tier::Quick) => 60_000,
             (_, Tier::Thorough) => 400_000,
         }
     }
